@@ -473,7 +473,14 @@ def tpl_closed_form(ctx, cls, low):
 def iscale_gaussian(ctx, lr, o): return lr * ctx.m.sqrt(ctx.m.pi) / 2
 def iscale_exponential(ctx, lr, o): return lr
 def iscale_stable(ctx, lr, o): return lr * ctx.m.fn("gamma", 1 + 1 / o["alpha"])
-def iscale_matern(ctx, lr, o): return lr * ctx.m.pi / ctx.m.sqrt(o["nu"]) / ctx.m.fn("beta", o["nu"], 0.5)
+def iscale_matern(ctx, lr, o):
+    # the integral of the correlation the model HAS: for nu > 20 that is the Gaussian limit exp(-(h/2)^2) (rho_matern)
+    m, nu = ctx.m, o["nu"]
+    general = lr * m.pi / m.sqrt(nu) / m.fn("beta", nu, 0.5)
+    limit = lr * m.sqrt(m.pi)
+    if ctx.mode == "conc":
+        return limit if float(nu) > 20.0 else general
+    return m.ite(ctx.gt(nu, 20.0), limit, general)
 def iscale_integral(ctx, lr, o): return lr * o["nu"] * ctx.m.sqrt(ctx.m.pi) / (2 * o["nu"] + 2)
 
 
